@@ -15,7 +15,9 @@ Mirrors `duke/src/lib.rs` (`trait ClassRead` over `Read + Seek`).
 
 namespace ClassRead
 
-/-- Sites of unchecked operations of the reader that are reachable from input (Rust built with overflow checks). -/
+/-- Sites of unchecked operations of the reader that were reachable from input (Rust built with overflow checks).
+All four were repaired upstream (e3534dd, 4853513, 6b80d4b, cb2ce34: each is an `err` now); the model of the current
+reader produces no `crash` any more.  The type and its constructors are kept because C16 refers to them. -/
 inductive Site where
   /-- `labels.rs` `get_or_create_range`: `start_pc + length` in `u16` -/
   | labelsRangeAdd
